@@ -75,22 +75,24 @@ Print Assumptions C06_ipcp_wire_ack.
 
 (* Repaired behaviour.  For every AAA answer (none, usable, 0.0.0.0, an IPv6 literal, anything) and every
    history of subscriber Configure-Requests (arbitrary bytes), Configure-Acks, Configure-Naks and
-   Configure-Rejects for our own request (arbitrary bytes): the assigned address is
-   usable, never changes, and the session's IPv4 address equals it after every event — in particular
-   whenever IPCP comes up. *)
+   Configure-Rejects for our own request (arbitrary bytes) and re-authentications with a different AAA
+   answer on the same session (startNCP run again): the assigned address is
+   usable, the session's IPv4 address equals it after every event — in particular whenever IPCP comes up —
+   and the remembered negotiated peer address is either nil or the assigned one (never a stale one). *)
 Theorem C06_adopted_is_assigned :
   forall aaa es,
   let s := sess_run repaired (sess_start repaired aaa) es in
   usable (ic_assigned (s_cfg s)) = true /\
-  ic_assigned (s_cfg s) = ic_assigned (s_cfg (sess_start repaired aaa)) /\
-  to4o (s_addr s) = ic_assigned (s_cfg s).
+  to4o (s_addr s) = ic_assigned (s_cfg s) /\
+  (pp_addr (s_peer s) = None \/ pp_addr (s_peer s) = ic_assigned (s_cfg s)).
 Proof. exact adopted_is_assigned. Qed.
 Print Assumptions C06_adopted_is_assigned.
 
 (* In every variant no packet of the subscriber changes the assigned address: Ack/Nak contents only
-   overwrite the BNG's own DNS (and local address) values. *)
+   overwrite the BNG's own DNS (and local address) values.  Only a new AAA answer (EvReauth) does. *)
 Theorem C06_assigned_immutable :
-  forall fl es s, ic_assigned (s_cfg (sess_run fl s es)) = ic_assigned (s_cfg s).
+  forall fl es s, forallb (fun e => negb (is_reauth e)) es = true ->
+  ic_assigned (s_cfg (sess_run fl s es)) = ic_assigned (s_cfg s).
 Proof. exact sess_run_assigned. Qed.
 Print Assumptions C06_assigned_immutable.
 
@@ -110,6 +112,21 @@ Theorem C06_adopted_is_assigned_refuted :
   s_open s = true /\ s_addr s = None /\ usable (ic_assigned (s_cfg s)) = true.
 Proof. exists None, [EvReq 1 []; EvAck]. vm_compute. repeat split. Qed.
 Print Assumptions C06_adopted_is_assigned_refuted.
+
+(* What the code does today (1b): after a re-authentication that changes the assignment from A to B the
+   remembered peer address A survives in the IPCP object; a request without an address option then brings
+   IPCP up and the session adopts the stale A. *)
+Theorem C06_adopted_stale_refuted :
+  exists aaa es,
+  let fl := mkflags false true false in
+  let s := sess_run fl (sess_start fl aaa) es in
+  s_open s = true /\ s_addr s = Some [10;0;0;5]%N /\ ic_assigned (s_cfg s) = Some [10;0;0;9]%N.
+Proof.
+  exists (Some (v4prefix ++ [10;0;0;5])%N),
+         [EvReq 1 [3;6;10;0;0;5]%N; EvAck; EvReauth (Some (v4prefix ++ [10;0;0;9])%N); EvReq 2 []; EvAck].
+  vm_compute. repeat split.
+Qed.
+Print Assumptions C06_adopted_stale_refuted.
 
 (* What the code does today (2): an AAA address of 0.0.0.0 (or an IPv6 literal) is kept, IPCP runs
    unassigned and the subscriber gets whatever address it proposes (here 6.6.6.6) acknowledged and adopted. *)
@@ -215,6 +232,73 @@ Theorem C06_ipv6cp_bad_not_acked :
 Proof. exact ipv6cp_bad_not_good. Qed.
 Print Assumptions C06_ipv6cp_bad_not_acked.
 
+(* ---- histories on one protocol object ------------------------------------------------------- *)
+
+(* For every history of ProcessConfReq / ProcessConfAck / ProcessConfNak / ProcessConfRej calls and
+   SetPeerAddress / SetDNS / SetAddress changes on one IPCP object, from every initial state, in every
+   variant: the answer to each request is the answer a fresh object with the configuration in force would
+   give (nothing remembered matters), the assignment in force is the most recent SetPeerAddress before the
+   request, and the policy of C06_ipcp_ack_only_assigned holds against it. *)
+Theorem C06_ipcp_history :
+  forall fl s ops c os r,
+  In (c, os, r) (iobj_trace fl s ops) ->
+  r = fst (ipcp_req c ipeer0 os) /\
+  (exists pre post, ops = pre ++ IReq os :: post /\
+                    ic_assigned c = last_set_peer pre (ic_assigned (io_cfg s))) /\
+  (forall v, usable (ic_assigned c) = true -> to4o (ic_assigned c) = Some v ->
+     (forall o, In o (r_ack r) -> In o os) /\
+     (forall o, In o (r_ack r) -> o_type o = 3%N -> o_data o = v) /\
+     (forall o, In o (r_nak r) -> o_type o = 3%N -> o_data o = v) /\
+     (forall o, In o os -> o_type o = 3%N -> length (o_data o) = 4%nat -> o_data o <> v ->
+        In (mkopt 3 v) (r_nak r) /\ is_good r = false /\ ~ In o (r_ack r))).
+Proof. exact ipcp_history. Qed.
+Print Assumptions C06_ipcp_history.
+
+(* Same for one LCP object (requests interleaved with Ack/Nak/Reject of our own options — which may change
+   the local magic number and fill rejected[...] — and SetMagic/SetMRU/SetAuthProto): each request is
+   answered as by a fresh object with the local magic number m in force, and for m <> 0 that number is never
+   acknowledged, whatever has been rejected or learned before. *)
+Theorem C06_lcp_history :
+  forall fl s ops m os r,
+  In (m, os, r) (lobj_trace fl s ops) ->
+  r = fst (lcp_req fl m lpeer0 os) /\
+  (m <> 0%N ->
+   (forall o, In o (r_ack r) -> o_type o = 5%N -> length (o_data o) = 4%nat /\ num32 (o_data o) <> m) /\
+   (forall o, In o os -> o_type o = 5%N -> length (o_data o) = 4%nat -> num32 (o_data o) = m ->
+      In o (r_nak r) /\ ~ In o (r_ack r) /\ is_good r = false)).
+Proof. exact lcp_history. Qed.
+Print Assumptions C06_lcp_history.
+
+Theorem C06_lcp_history_auth :
+  forall s ops m os r,
+  In (m, os, r) (lobj_trace repaired s ops) ->
+  forall o, In o (r_ack r) -> o_type o = 3%N ->
+     num16 (o_data o) = proto_pap \/
+     (num16 (o_data o) = proto_chap /\ exists a b, o_data o = [a; b; chap_md5]).
+Proof. exact lcp_history_auth. Qed.
+Print Assumptions C06_lcp_history_auth.
+
+(* and for one IPv6CP object, l being the local identifier in force (set, or learned from an Ack/Nak) *)
+Theorem C06_ipv6cp_history :
+  forall s ops l os r,
+  In (l, os, r) (v6obj_trace s ops) ->
+  forall o, In o (r_ack r) ->
+  In o os /\ o_type o = 1%N /\ length (o_data o) = 8%nat /\ all_zero (o_data o) = false /\ o_data o <> l.
+Proof. exact ipv6cp_history. Qed.
+Print Assumptions C06_ipv6cp_history.
+
+Example C06_history_nonvacuous :
+  (* negotiated with A, assignment changes to B, subscriber re-requests A: Nak(B); magic rejected by the
+     subscriber and then looped back: Nak *)
+  map (fun t => snd t) (iobj_trace repaired (mkiobj (mk_ipcp_cfg (Some [10;0;0;5]%N) None) ipeer0)
+     [IReq [mkopt 3 [10;0;0;5]%N]; ISetPeer (Some [10;0;0;9]%N); IReq [mkopt 3 [10;0;0;5]%N]])
+  = [mkres [mkopt 3 [10;0;0;5]%N] [] []; mkres [] [mkopt 3 [10;0;0;9]%N] []] /\
+  map (fun t => snd t) (lobj_trace repaired (lobj0 7)
+     [LRej [mkopt 5 [0;0;0;7]%N]; LReq [mkopt 5 [0;0;0;7]%N]])
+  = [mkres [] [mkopt 5 [0;0;0;7]%N] []].
+Proof. vm_compute. split; reflexivity. Qed.
+Print Assumptions C06_history_nonvacuous.
+
 (* ---- wire format ---------------------------------------------------------------------------- *)
 
 (* ParseOptions terminates within len(data) iterations and never indexes out of range *)
@@ -250,9 +334,10 @@ Print Assumptions C06_ipcp_nonvacuous.
 Example C06_session_nonvacuous :
   let s := sess_run repaired (sess_start repaired (Some (v4prefix ++ [10;0;0;5])%N))
              [EvReq 1 [3;6;0;0;0;0]; EvReq 2 []; EvAck; EvNak [3;6;6;6;6;6;129;6;1;1;1;1]; EvRej [129;6;1;1;1;1];
-              EvReq 3 [3;6;10;0;0;5]; EvReq 4 [3;6;10;0;0;5]; EvAckW [3;6;6;6;6;6]]%N in
-  s_open s = true /\ s_fsm s = 9%N /\ to4o (s_addr s) = Some [10;0;0;5]%N /\
-  pp_addr (s_peer s) = Some [10;0;0;5]%N.
+              EvReq 3 [3;6;10;0;0;5]; EvReauth (Some (v4prefix ++ [10;0;0;9])); EvReq 4 [3;6;10;0;0;5];
+              EvReq 5 [3;6;10;0;0;9]; EvAckW [3;6;6;6;6;6]]%N in
+  s_open s = true /\ s_fsm s = 9%N /\ to4o (s_addr s) = Some [10;0;0;9]%N /\
+  pp_addr (s_peer s) = Some [10;0;0;9]%N.
 Proof. vm_compute. repeat split. Qed.
 Print Assumptions C06_session_nonvacuous.
 
